@@ -1007,7 +1007,11 @@ class FixedVectorSerializer(Generic[T, T_NP], TypeSerializer[list[T], np.object_
         return [self.element_serializer.read(stream) for _ in range(self._length)]
 
     def read_numpy(self, stream: CodedInputStream) -> np.object_:
-        raise NotImplementedError("Internal error: expected this to be a subarray")
+        # the subarray field of a structured array element that is read field by field
+        return cast(
+            np.object_,
+            [self.element_serializer.read_numpy(stream) for _ in range(self._length)],
+        )
 
     def is_trivially_serializable(self) -> bool:
         return self.element_serializer.is_trivially_serializable()
@@ -1327,7 +1331,14 @@ class RecordSerializer(TypeSerializer[T, np.void]):
         )
 
     def read_numpy(self, stream: CodedInputStream) -> np.void:
-        return cast(np.void, self._read(stream))
+        # an element of a structured array: every field in its NumPy form
+        return cast(
+            np.void,
+            tuple(
+                serializer.read_numpy(stream)
+                for _, serializer in self._field_serializers
+            ),
+        )
 
 
 # Only used in the header
